@@ -117,7 +117,15 @@ def step (d : DState) (line : String) : DState × String :=
     match d.tree? n, pBool [c], pBool [f] with
     | some s, some (c, _), some (f, _) =>
       -- through the checked splitters (`trap` where the Rust would panic; equal to `s.stream` on the domain: C17)
-      match s.streamC ⟨c, f⟩ d.store with
+      match s.streamC false ⟨c, f⟩ d.store with
+      | some r => ({ d with store := r.2 }, showSResult r.1)
+      | none => (d, "trap")
+    | _, _, _ => bad
+  -- the same for a build with overflow checks: ConcatSource's `u32` additions are partial too (K4 lives there)
+  | ["chkstream", n, c, f] =>
+    match d.tree? n, pBool [c], pBool [f] with
+    | some s, some (c, _), some (f, _) =>
+      match s.streamC true ⟨c, f⟩ d.store with
       | some r => ({ d with store := r.2 }, showSResult r.1)
       | none => (d, "trap")
     | _, _, _ => bad
